@@ -13,6 +13,8 @@ for d in sorted(glob.glob("/verif/seeded/*")):
     name = os.path.basename(d)
     if only and not any(o in name for o in only):
         continue
+    if not os.path.exists(os.path.join(d, "meta.json")):
+        continue          # seeded/harmless: behaviour-preserving rewrites (tools/tryharmless.py)
     meta = json.load(open(os.path.join(d, "meta.json")))
     prop = meta["property"]
     if meta.get("retired"):
